@@ -129,7 +129,7 @@ def wf_blockstepper(s):
             and ghost('FORINSTR', s._child_stepper) is seq(s._block._instruction)[ival(s._pos)])
 
 
-@contract('plumpy.workchains._BlockStepper.step', props=['C09', 'C08', 'C10'])
+@contract('plumpy.workchains._BlockStepper.step', props=['C09', 'C08', 'C10', 'C07'])
 def block_step(self):
     """a sequence executes its current instruction; exactly when that instruction reports finished does it move on to
     the next one (never skipping, never repeating), and it is finished after the last"""
@@ -156,7 +156,7 @@ def block_step(self):
 
 
 # ------------------------------------------------------------------------------------------------ loop
-@contract('plumpy.workchains._WhileStepper.step', props=['C09', 'C08', 'C10'])
+@contract('plumpy.workchains._WhileStepper.step', props=['C09', 'C08', 'C10', 'C07'])
 def while_step(self):
     """while_: the predicate is evaluated exactly when no iteration is in progress (i.e. before every iteration); false
     ends the loop without running a step function; true starts the body afresh; the loop itself never reports finished
@@ -203,7 +203,7 @@ def wf_ifstepper(s):
                                                 and not is_function(seq(s._if_instruction._ifs)[i]._predicate))))
 
 
-@contract('plumpy.workchains._IfStepper.step', props=['C09', 'C08', 'C10'])
+@contract('plumpy.workchains._IfStepper.step', props=['C09', 'C08', 'C10', 'C07'])
 def if_step(self):
     """if_/elif_/else_: on the first step the predicates are evaluated in order until the first true one and no later one;
     the chosen body then runs (in the same step) to its end; no true predicate makes a step that calls no step function;
